@@ -10,6 +10,14 @@ def jobs(tier):
         name = sh.replace("(", "L").replace(")", "R")
         js.append(vp.Job("eval_grammar." + name, "eval_grammar.cpp", {"SHAPE": '"%s"' % sh}, uf_muldiv=True,
                          max_paths=400000, timeout=500 if tier == "quick" else 2400, min_completed=1))
+    # (c) literal notations through the real tokenizer
+    L = lambda name, d: js.append(vp.Job("literals." + name, "literals.cpp", d, max_paths=200000, timeout=500, min_completed=1))
+    for cls, cn in ((0, "digits"), (1, "letters"), (2, "lead_letter"), (3, "lead_upper")):
+        L("hex0x." + cn, {"NOTATION": 1, "CLASS": cls}); L("hexh." + cn, {"NOTATION": 2, "CLASS": cls})
+    L("hex_sep", {"NOTATION": 8, "CLASS": 2})
+    for nd in (1, 5, 10, 18): L("dec%d" % nd, {"NOTATION": 3, "NDIG": nd})
+    L("bin0b.8", {"NOTATION": 4, "NBITS": 8, "SYMBITS": 7}); L("bin0b.31", {"NOTATION": 4, "NBITS": 31, "SYMBITS": 6}); L("binb.16", {"NOTATION": 5, "NBITS": 16, "SYMBITS": 6})
+    L("oct5", {"NOTATION": 6, "NDIG": 5}); L("oct21", {"NOTATION": 6, "NDIG": 21}); L("char", {"NOTATION": 7})
     # probe for the recorded finding (three tightening precedence levels): same harness with the assertion for that class enabled
     js.append(vp.Job("eval_grammar.NBNBNBN.known", "eval_grammar.cpp", {"SHAPE": '"NBNBNBN"', "SHOW_KNOWN": None}, uf_muldiv=True, max_paths=400000, timeout=500))
     return js
@@ -20,7 +28,7 @@ def main(tier):
         "EvalExpression::run/execute_stack, Operator::set_operator/execute and Var arithmetic are executed symbolically on token skeletons "
         "whose operator kinds are symbolic (solver-enumerated) and whose operands are symbolic 64-bit values; each path's result is compared "
         "with an independent precedence-climbing evaluator; division by zero, INT64_MIN/-1 and shift counts >= 64 are decided by solver queries at the operation.",
-        ["token stream replaced by a skeleton (tokens_get/tokens_push stubbed); literal spelling is checked separately (tokens_literals harness)",
+        ["grammar jobs: token stream replaced by a skeleton (tokens_get/tokens_push stubbed); literal jobs: '.dc64 <literal>' through the real two-pass assembler with symbolic digits (hex 16 digits in four letter-case classes, 0x prefix / h suffix / _ separators, decimal up to 18 digits, binary up to 31 bits, octal with q suffix up to 21 digits, character literals)",
          "symbolic x symbolic 64-bit *, /, % are uninterpreted functions shared by implementation and oracle (congruence); their leaf semantics is LLVM mul/sdiv/srem",
          "floating point operands outside the claim",
          "bounds: expression shapes listed in checks/C04.py (up to 4 binary operators flat, one parenthesis level, unary prefixes)"])
